@@ -98,7 +98,7 @@ fn classify<F: Family>(p: &F::Packet, t: &mut Tape, ctx: &mut Ctx) -> CaseResult
 
 fn case<F: Family>(input: &Input, ctx: &mut Ctx) -> CaseResult {
     let mut t = Tape::new(input.tape());
-    let cfg = if ctx.thorough && t.chance(1, 5) { GenCfg::MEDIUM } else { GenCfg::SMALL };
+    let cfg = crate::gen::cfg_mix(&mut t, ctx.thorough);
     let p = F::gen(&mut t, &cfg).map_err(|e| Violation::new(e.0))?;
     classify::<F>(&p, &mut t, ctx)
 }
